@@ -220,6 +220,8 @@ func main() {
 		{"OneConnection", "HandlePong", "HandlePong", ""},
 		{"OneConnection", "GetMPDone", "GetMPDone", ""},
 		{"OneConnection", "FetchMessage", "FetchMessage", ""},
+		// the once-a-second walk over the penalty history (Tick): what Model/NetParseExpire.lean mirrors
+		{"OneConnection", "expire_misbehave", "expire_misbehave", ""},
 	}
 	noInline := map[string]bool{}
 	for i, t := range targets {
